@@ -37,6 +37,7 @@ def check(repo: Repo, R) -> None:
         R.run(defaults_and_dispatch, repo, R, m)
         R.run(caches, repo, R, m)
         R.run(literal_sizes_scaled_whole, repo, R, m)
+        R.run(ambiguity_guard_from_two, repo, R, m)
     R.run(small_pdks, repo, R, prims)
     R.run(registry, repo, R)
     R.run(logic_cells, repo, R)
@@ -330,6 +331,22 @@ def defaults_and_dispatch(repo: Repo, R, m: pt.PdkModel):
         R.check(ok and given, rule, f"pdks/{m.name}::use_defaults", ud.site, f"{m.name}.use_defaults: given sizes are used ({given}); missing ones come from (width, length) of the PDK default for that device ({ok})", why="width and length defaults are exchanged, or given sizes are ignored")
 
 
+def ambiguity_guard_from_two(repo: Repo, R, m: pt.PdkModel):
+    """A walker that refuses ambiguous selections refuses every one of them: two candidates are ambiguous."""
+    rule = "C15.3-selection-well-formed"
+    mm = m.walker.methods.get("mos_module")
+    if mm is None:
+        return
+    guards = [n for n in au.walk_no_nested(mm.node) if isinstance(n, ast.If) and "len(subset)" in ast.unparse(n.test) and (au.raises(n.body) or au.raises(n.orelse))]
+    if not guards:
+        R.note(f"{m.name}.mos_module has no ambiguity guard (the first candidate in table order is taken)")
+        return
+    picks = [r_ for r_ in shared.returns_of(mm.node) if r_.value is not None and "subset" in ast.unparse(r_.value)]
+    two = bool(picks) and all(shared.conds_imply(list(shared.path_conditions(mm.node, r_)), [(shared.parse_cond("len(subset) == 2"), False)]) is True for r_ in picks)
+    R.check(two, rule, key_of(mm, "two-candidates-are-ambiguous"), mm.at(guards[0]), f"{m.name}.mos_module: a request that two devices satisfy is refused as not well-defined: {two} (guard `{ast.unparse(guards[0].test)}`)",
+            why="h.Mos(tp=PMOS) with exactly two matching devices silently compiles to whichever comes first in the table instead of raising")
+
+
 def literal_sizes_scaled_whole(repo: Repo, R, m: pt.PdkModel):
     """Where a PDK rescales a size given as a Literal expression, the factor applies to the whole expression: the text is
     put in its own parentheses before anything is appended to it."""
@@ -497,6 +514,11 @@ def registry(repo: Repo, R):
     fr = repo.func(F_PDK, "register")
     ok = bool(pat.find("_mgr.modules.add(module)", fr.node)) and bool(pat.find("_mgr.names[module.__name__] = module", fr.node))
     R.check(ok, rule, key_of(fr), fr.site, f"register() records the module in the set and under its name: {ok}", why="a registered PDK cannot be found by name")
+    adds = [c for c, _b in pat.find("_mgr.modules.add(module)", fr.node)] + [st for st in au.stmts(fr.node) if isinstance(st, ast.Assign) and ast.unparse(st.targets[0]).startswith("_mgr.names[")]
+    late = [r_ for r_ in shared.raising_leaves(fr.node, noreturn_set(repo)) if any(shared.precedes(fr.node, a_, r_) for a_ in adds)]
+    R.check(bool(adds) and not late, rule, key_of(fr, "recorded-after-checks"), fr.at(late[0]) if late else fr.site,
+            "register() records a module only after every check on it has passed" if not late else f"register() can still refuse a module after recording it (`{ast.unparse(late[0])[:60]}`)",
+            why="a module with a wrong compile() signature is refused once and stays registered: default() is ambiguous, the module is found by name, a second attempt is accepted")
     fsd = repo.func(F_PDK, "set_default")
     tp = fsd.node.args.args[0].arg
     stores = [st for st in au.stmts(fsd.node) if isinstance(st, ast.Assign) and ast.unparse(st.targets[0]) == "_mgr.default"]
